@@ -65,7 +65,7 @@ impl ResponseOutputFormat {
                         .iter()
                         .sorted_by_key(|(k, _)| *k)
                         .map(|(k, v)| match v.apply_mapping(response) {
-                            Ok(cell) => csv_field(&cell.to_string()),
+                            Ok(cell) => csv_cell(&cell),
                             Err(msg) => {
                                 errors.insert(k.clone(), msg);
                                 String::from("")
@@ -77,7 +77,7 @@ impl ResponseOutputFormat {
                         .iter()
                         .rev()
                         .map(|(k, v)| match v.apply_mapping(response) {
-                            Ok(cell) => csv_field(&cell.to_string()),
+                            Ok(cell) => csv_cell(&cell),
                             Err(msg) => {
                                 errors.insert(k.clone(), msg);
                                 String::from("")
@@ -110,6 +110,15 @@ impl ResponseOutputFormat {
                 sorted: _,
             } => Some(String::from("\n")),
         }
+    }
+}
+
+/// the CSV field of a mapped value: a string is written as its text, any other value as its
+/// JSON text.
+fn csv_cell(value: &serde_json::Value) -> String {
+    match value {
+        serde_json::Value::String(text) => csv_field(text),
+        other => csv_field(&other.to_string()),
     }
 }
 
